@@ -140,6 +140,7 @@ impl FuzzSub {
             .arg("-len_control=0")
             .arg("-max_len=4096")
             .arg("-rss_limit_mb=4096")
+            .arg("-detect_leaks=0")
             .arg(format!("-fork={}", ctx.threads.max(1)))
             .arg(format!("-artifact_prefix={}/", arts.display()))
             .output()
